@@ -180,6 +180,22 @@ fn probe_image(dir: &Path, cfg: &SpecCfg, names: &Names, cont_key: &str, cont_va
         .map(|(n, _)| n.clone())
         .collect();
     let after_open = ids_in(dir);
+    // (all-eligible configurations, every second image) a merge pass right after recovery, before anything is written:
+    // it must keep every key and leave the store exactly as large as its live data - torn tails, outputs of an unfinished
+    // merge, whatever the failure left behind is reclaimed by the first merge that takes every file
+    let mut premerge = json!({"done": false});
+    let img_parity = bytes_before.values().map(|b| b.len()).sum::<usize>() + bytes_before.len();
+    if cfg.th_small >= 1_000_000 && img_parity % 2 == 0 && !NO_AFTERMATH.load(std::sync::atomic::Ordering::Relaxed) {
+        let hh = h.clone();
+        let res = match std::panic::catch_unwind(std::panic::AssertUnwindSafe(move || hh.verif_merge())) {
+            Ok(Ok(())) => "ok".to_string(),
+            Ok(Err(e)) => format!("err:{e}"),
+            Err(_) => "panic".into(),
+        };
+        let gets = read_all(&h, names);
+        let size: u64 = list_files(dir, "data").iter().map(|(_, p)| fs::metadata(p).map(|m| m.len()).unwrap_or(0)).sum();
+        premerge = json!({"done": true, "res": res, "gets": gets, "size": size});
+    }
     // continued use: a put, read back, reopen, read back
     let (k, v) = (names.key(cont_key), names.val(cont_val));
     let h2 = h.clone();
@@ -275,7 +291,7 @@ fn probe_image(dir: &Path, cfg: &SpecCfg, names: &Names, cont_key: &str, cont_va
            "recovery_calls": recovery_calls, "modified_by_recovery": modified,
            "cont": {"k": cont_key, "v": cont_val, "put": put, "gets": gets_after_put,
                     "reopened": reopened, "gets2": gets_after_reopen, "after": after_all},
-           "aft": aft})
+           "aft": aft, "premerge": premerge})
 }
 
 /// ["clock", secs]: the wall clock is stepped; not an operation of the store (no event, no call)
